@@ -1,6 +1,6 @@
 (* C20 - the command-line tool drives the same requests as the API.
    Statements only; every proof is [exact <lemma ...>].  [commands], [api_methods],
-   [getopt_shortopts], [option_table], [option_defaults], [exit_table], [power_table],
+   [getopt_shortopts], [option_table], [option_defaults], [exit_table], [run_shape], [power_table],
    [chassis_control_req] are REGENERATED from /repo on every run (Gen/CliTable.v by
    gen/gen_cli.py); obligations over them are re-checked by the kernel's vm
    ([eq_refl <: check = true]) against what the code says now.  The two obligations that
@@ -134,6 +134,23 @@ Theorem C20_exit_status :
   (exists msg code, command_error_end exit_table TimeoutError = EndStatus (Some msg) code /\ code <> 0%Z /\ msg <> "").
 Proof. exact (exit_sound exit_table (eq_refl true <: exit_ok_b exit_table = true)). Qed.
 Print Assumptions C20_exit_status.
+
+(* ... at EVERY stage main goes through before the finally - opening the interface,
+   establishing the session, running the command (run_shape: where main opens and closes the
+   connection relative to its try, regenerated from the source): the tool ends with the message
+   and a non-zero status, and has closed session and interface; without a fault all five
+   interface calls are made in order and main returns *)
+Theorem C20_exit_stages :
+  main_run run_shape exit_table None = ([IOpen; IEstablish; ICommand; ICloseSession; IClose], RunReturns) /\
+  forall s, In s fault_stages ->
+    (forall cc, (cc < 256)%N -> exists calls msg code,
+        main_run run_shape exit_table (Some (s, CCError cc)) = (calls, RunExit (Some msg) code)
+        /\ code <> 0%Z /\ is_substr (hex2 cc) msg = true /\ closes calls = true) /\
+    (exists calls msg code,
+        main_run run_shape exit_table (Some (s, TimeoutError)) = (calls, RunExit (Some msg) code)
+        /\ code <> 0%Z /\ msg <> "" /\ closes calls = true).
+Proof. exact (stages_sound run_shape exit_table (eq_refl true <: stages_ok_b run_shape exit_table = true)). Qed.
+Print Assumptions C20_exit_stages.
 
 (* every command resolves: its handler is translated, uses at least one operation, and
    every operation it names exists on pyipmi.Ipmi and accepts the number of arguments and
